@@ -55,6 +55,8 @@ pub enum Val {
     B(bool),
     F(f32),
     S(String),
+    /// static text (variant names, sub-message kinds): no allocation in the hot loops
+    T(&'static str),
     Y(Vec<u8>),
 }
 
@@ -67,6 +69,7 @@ impl Val {
             Val::B(b) => 0x44 + *b as u64,
             Val::F(x) => mix(x.to_bits() as u64 ^ 0x55),
             Val::S(s) => hash_bytes(0x66, s.as_bytes()),
+            Val::T(s) => hash_bytes(0x66, s.as_bytes()),
             Val::Y(b) => hash_bytes(0x77, b),
         }
     }
@@ -78,6 +81,7 @@ impl Val {
             Val::B(b) => format!("{}", b),
             Val::F(x) => format!("{:?}f32", x),
             Val::S(s) => format!("{:?}", s),
+            Val::T(s) => format!("{:?}", s),
             Val::Y(b) => format!("bytes[{}]:{}", b.len(), crate::json::hex(&b[..b.len().min(48)])),
         }
     }
@@ -301,10 +305,29 @@ pub fn rot_raw(r: &Option<RateOfTurn>) -> Val {
         Some(r) => {
             let mut found: Option<u8> = None;
             let mut n = 0;
-            for b in 0..=255u8 {
-                if RateOfTurn::parse(b) == Some(*r) {
-                    n += 1;
-                    found.get_or_insert(b);
+            // fast path: invert the accessors, then confirm through the public constructor
+            let guess: Option<i32> = match (r.rate(), r.direction()) {
+                (Some(x), None) if x == 0.0 => Some(0),
+                (Some(x), Some(d)) => {
+                    let m = (x.sqrt() * 4.733).round() as i32;
+                    Some(if matches!(d, Direction::Port) { -m } else { m })
+                }
+                (None, Some(Direction::Starboard)) => Some(127),
+                (None, Some(Direction::Port)) => Some(-127),
+                _ => None,
+            };
+            if let Some(g) = guess {
+                if (-127..=127).contains(&g) && RateOfTurn::parse(g as i8 as u8) == Some(*r) {
+                    found = Some(g as i8 as u8);
+                    n = 1;
+                }
+            }
+            if n == 0 {
+                for b in 0..=255u8 {
+                    if RateOfTurn::parse(b) == Some(*r) {
+                        n += 1;
+                        found.get_or_insert(b);
+                    }
                 }
             }
             match (found, n) {
@@ -338,31 +361,31 @@ pub fn rot_raw(r: &Option<RateOfTurn>) -> Val {
 pub fn radio(out: &mut Fields, r: &RadioStatus) {
     match r {
         RadioStatus::Sotdma(s) => {
-            out.push((f("radio.kind"), Val::S("sotdma".into())));
+            out.push((f("radio.kind"), Val::T("sotdma")));
             out.push((f("radio.sync"), Val::U(rev_sync(&s.sync_state))));
             out.push((f("radio.timeout"), Val::U(s.slot_timeout as u64)));
             match &s.sub_message {
                 SubMessage::SlotOffset(v) => {
-                    out.push((f("radio.sub"), Val::S("slot_offset".into())));
+                    out.push((f("radio.sub"), Val::T("slot_offset")));
                     out.push((f("radio.sub.value"), Val::I(*v as i64)));
                 }
                 SubMessage::UtcHourAndMinute(h, m) => {
-                    out.push((f("radio.sub"), Val::S("utc".into())));
+                    out.push((f("radio.sub"), Val::T("utc")));
                     out.push((f("radio.sub.hour"), Val::U(*h as u64)));
                     out.push((f("radio.sub.minute"), Val::U(*m as u64)));
                 }
                 SubMessage::SlotNumber(v) => {
-                    out.push((f("radio.sub"), Val::S("slot_number".into())));
+                    out.push((f("radio.sub"), Val::T("slot_number")));
                     out.push((f("radio.sub.value"), Val::I(*v as i64)));
                 }
                 SubMessage::ReceivedStations(v) => {
-                    out.push((f("radio.sub"), Val::S("received_stations".into())));
+                    out.push((f("radio.sub"), Val::T("received_stations")));
                     out.push((f("radio.sub.value"), Val::I(*v as i64)));
                 }
             }
         }
         RadioStatus::Itdma(i) => {
-            out.push((f("radio.kind"), Val::S("itdma".into())));
+            out.push((f("radio.kind"), Val::T("itdma")));
             out.push((f("radio.sync"), Val::U(rev_sync(&i.sync_state))));
             out.push((f("radio.increment"), Val::I(i.slot_increment as i64)));
             out.push((f("radio.num_slots"), Val::U(i.num_slots as u64)));
@@ -420,7 +443,7 @@ macro_rules! dims {
 /// Flatten a decoded message into `(field id, value)` pairs. The first entry is always `variant`.
 pub fn canon_msg(m: &AisMessage, out: &mut Fields) {
     out.clear();
-    out.push((f("variant"), Val::S(variant_name(m).to_string())));
+    out.push((f("variant"), Val::T(variant_name(m))));
     match m {
         AisMessage::PositionReport(p) => {
             hdr!(out, p);
@@ -709,7 +732,9 @@ pub fn canon_msg(m: &AisMessage, out: &mut Fields) {
 pub fn fields_digest(fl: &Fields) -> u64 {
     let mut h = 0x5151u64;
     for (id, v) in fl {
-        h = mix(h ^ hash_bytes(id.1 as u64 * 256 + id.2 as u64, id.0.as_bytes()) ^ v.digest().rotate_left(17));
+        let nb = id.0.as_bytes();
+        let name = (nb.len() as u64) << 32 | (nb[0] as u64) << 24 | (nb[nb.len() - 1] as u64) << 16 | (id.1 as u64) << 8 | id.2 as u64;
+        h = mix(h ^ name ^ v.digest().rotate_left(17));
     }
     h
 }
